@@ -23,6 +23,10 @@ class OnceTimedOperation(AbstractDenseTimeOnlineOperation):
         begin = self.begin
         end = self.end
 
+        if sample and self.started and sample[0][0] == self.residual_start:
+            # a batch that starts at the time of the last sample seen so far repeats it
+            sample = sample[1:]
+
         if sample:
             # update when the residuals start in this iteration
             self.residual_start = sample[-1][0]
